@@ -43,6 +43,7 @@ type Contract struct {
 	Consumes []string // parameters of linear type that are NOT consumed (borrowed) are listed in Borrows
 	Borrows  []string
 	CallAssume map[string][]Clause
+	CallRequires map[string][]Clause // obligations of this function at its calls to the named callee
 	CallGhost  map[string][]GhostSet
 	AtCall     map[string][]GhostSet
 	ExitGhost []GhostSet // ghost assignments performed at every return, before the postconditions are checked
@@ -197,7 +198,7 @@ func (cs *ContractSet) loadContractFile(path, pkg string) error {
 		}
 		switch kw {
 		case "ghost", "pure", "ufunc", "const", "monotone", "atomic", "linear", "typeinv", "typestep", "lockhavoc", "recvhavoc", "func", "iface", "extern", "lemma", "axiom",
-			"arith", "requires", "ensures", "modifies", "loop", "inline", "trusted", "borrows", "opt", "package", "exitghost", "callassume", "callghost", "atcall":
+			"arith", "requires", "ensures", "modifies", "loop", "inline", "trusted", "borrows", "opt", "package", "exitghost", "callassume", "callghost", "atcall", "callrequires":
 			if err := flush(); err != nil {
 				return err
 			}
@@ -509,6 +510,22 @@ func (cs *ContractSet) addClause(cur **Contract, pkg, kw, rest, where string) er
 				c.AtCall = map[string][]GhostSet{}
 			}
 			c.AtCall[f[0]] = append(c.AtCall[f[0]], GhostSet{Target: tgt, Val: val, Cond: SIdent{Name: "true"}, Src: body})
+		case "callrequires":
+			// callrequires <callee> [label] <expr>: an OBLIGATION of this function at
+			// each of its calls to <callee>, written over its own parameters and
+			// locals and over arg0, arg1, … (the call's arguments, receiver first)
+			f := strings.Fields(rest)
+			if len(f) < 2 {
+				return fmt.Errorf("%s: malformed callrequires", where)
+			}
+			if c.CallRequires == nil {
+				c.CallRequires = map[string][]Clause{}
+			}
+			cl, err := mkClause(strings.TrimSpace(strings.TrimPrefix(rest, f[0])), where, len(c.CallRequires[f[0]]), "callreq")
+			if err != nil {
+				return err
+			}
+			c.CallRequires[f[0]] = append(c.CallRequires[f[0]], cl)
 		case "callassume":
 			// callassume <callee> <expr>: an ASSUMPTION made just before calls to
 			// <callee> inside this function (facts the verifier cannot derive,
